@@ -320,6 +320,7 @@ type Death struct {
 // death means (violation / expected / inconclusive). Returns number of deaths.
 func RunBatch(c *Ctx, name string, start, end int, extra interface{}, timeout time.Duration, onDeath func(d Death), env ...string) int {
 	deaths := 0
+	first := start
 	eb, _ := json.Marshal(extra)
 	for start < end {
 		arg := BatchArg{Seed: c.Seed, Tier: c.Tier, Start: start, End: end, Extra: eb}
@@ -385,10 +386,15 @@ func RunBatch(c *Ctx, name string, start, end int, extra interface{}, timeout ti
 		}
 		c.R.Cases(int64(lastIdx - start))
 		c.R.Sample(map[string]interface{}{"case_running_when_the_child_process_ended": lastDesc})
-		onDeath(Death{Idx: lastIdx, Desc: lastDesc, Result: cr})
+		if cr.Exit == 128+9 && !cr.TimedOut {
+			// SIGKILL comes from outside the process (the kernel's OOM killer, an operator): not behaviour of the code under test
+			c.R.Inconcl(fmt.Sprintf("child %s was killed by SIGKILL (out of memory?) while running case %d", name, lastIdx))
+		} else {
+			onDeath(Death{Idx: lastIdx, Desc: lastDesc, Result: cr})
+		}
 		start = lastIdx + 1
-		if deaths > 50 {
-			c.R.Inconcl("child " + name + " died more than 50 times; batch abandoned")
+		if deaths > 50 && deaths > (end-first)/2 {
+			c.R.Inconcl("child " + name + " died more than 50 times and in more than half of its cases; batch abandoned")
 			return deaths
 		}
 	}
